@@ -128,6 +128,13 @@ theorem owedFrame_returned (s : S) (r : Ret) : OwedFrame s (returned s r) := by
     exact owedFrame_of_eq rfl (emit_owed_neutral _ _ trivial) rfl
   · exact owedFrame_of_eq rfl (emit_owed_neutral _ _ trivial) rfl
 
+theorem owedFrame_bodyStep (s : S) : OwedFrame s (bodyStep s) := by
+  unfold bodyStep
+  split
+  · exact owedFrame_returned _ _
+  · exact owedFrame_of_eq rfl rfl rfl
+  · exact owedFrame_of_eq rfl rfl rfl
+
 theorem owedFrame_bodyOf (s : S) (c : Fid) : OwedFrame s (bodyOf s c) := by
   unfold bodyOf
   split
@@ -148,6 +155,7 @@ theorem owedFrame_bodyOf (s : S) (c : Fid) : OwedFrame s (bodyOf s c) := by
       · show (fibreTimeout s.k c (s.sdue c)).1.runq = s.k.runq
         rw [runq_fibreTimeout]
   · exact owedFrame_returned _ _
+  · exact owedFrame_bodyStep _
 
 /-- dispatching `c` discharges `c` -/
 theorem owedFrame_body (s : S) (c : Fid) : OwedFrame s (body s c) ∧ c ∉ (body s c).a.owedFids := by
@@ -212,6 +220,14 @@ theorem owedFrame_afterDrain {s : S} (hq : QOk s.k) (c : Cont) : OwedFrame s (af
   | pass2 c =>
     refine OwedFrame.trans (a := s) (b := { s with k := makeRunnable s.k c }) ?_ (owedFrame_afterUpdate (qok_makeRunnable hq c))
     exact ⟨rfl, fun _ hg => hg, fun g _ h => (mem_runq_makeRunnable c g).mpr (Or.inl h)⟩
+  | brun f =>
+    refine OwedFrame.trans (a := s) (b := tok (.bcall (.run f) false) { s with k := makeRunnable s.k f }) ?_ (owedFrame_bodyStep _)
+    exact ⟨rfl, fun _ hg => hg, fun g _ h => (mem_runq_makeRunnable f g).mpr (Or.inl h)⟩
+  | bkill f =>
+    refine OwedFrame.trans (a := s) ?_ (owedFrame_bodyStep _)
+    refine ⟨rfl, fun g hg => ((mem_owed_killed s.a f g).mp hg).1, fun g hg h => ?_⟩
+    have hne := ((mem_owed_killed s.a f g).mp hg).2
+    exact (List.mem_erase_of_ne hne).mpr h
 
 /-! ### the queue's ghost state under the steps of senders and of the receiver -/
 
@@ -486,6 +502,7 @@ theorem reach_inv3 {s : S} (hr : Reach s) : Inv3 s := by
   | nops k _ ih => exact inv3_of_same ih rfl rfl rfl rfl
   | newItem _ ih => exact inv3_of_same ih rfl rfl rfl rfl
   | noYields _ ih => exact inv3_of_same ih rfl rfl rfl rfl
+  | setBody b r _ ih => exact inv3_of_same ih rfl rfl rfl rfl
   | observe o ho _ ih =>
     refine inv3_of_same ih rfl rfl rfl (owedFids_neutral _ o ?_)
     rcases ho with e | e <;> subst e <;> trivial
